@@ -1,1 +1,2 @@
 //! shared helpers for the chk-sql checks
+pub mod sqlmc;
